@@ -364,3 +364,24 @@ func vU64(b []byte) uint64 {
 	}
 	return v
 }
+
+// VerifTimeOptions: the time.Time forms of the options denote milliseconds since the epoch
+// (concrete instants: the conversion divides a 64-bit count of nanoseconds by a constant).
+func VerifTimeOptions() {
+	from, to := time.Unix(12, 345678901), time.Unix(99, 999999999)
+	g, err := NewGet(context.Background(), []byte("t"), []byte("k"), TimeRange(from, to))
+	verifAssert(err == nil, "a valid range is accepted")
+	g.SetRegion(vRegion{})
+	tr := g.ToProto().(*pb.GetRequest).Get.TimeRange
+	verifAssert(tr.GetFrom() == 12345 && tr.GetTo() == 99999, "a time range is sent in milliseconds, rounded down")
+	_, err = NewGet(context.Background(), []byte("t"), []byte("k"), TimeRange(to, from))
+	verifAssert(err != nil, "an empty range is rejected")
+	m, err := NewPut(context.Background(), []byte("t"), []byte("k"), map[string]map[string][]byte{"f": {"q": []byte("v")}},
+		Timestamp(time.Unix(7, 654321000)))
+	verifAssert(err == nil, "a timestamp is accepted")
+	m.SetRegion(vRegion{})
+	r, _, _ := m.toProto(false, nil)
+	verifAssert(r.Mutation.GetTimestamp() == 7654 && r.Mutation.ColumnValue[0].QualifierValue[0].GetTimestamp() == 7654,
+		"a timestamp is sent in milliseconds, rounded down")
+	verifReach("times")
+}
